@@ -97,7 +97,15 @@ pub fn mutate_at(root: &mut Value, p: &[Step], d: &mut Dec) -> String {
                 *t = nv;
             }
             Value::String(s) => {
-                let nv = match d.below(6) {
+                let nv = match d.below(8) {
+                    // long values: 1..200 ASCII characters, then a 2- / 3- / 4-byte character, then a tail
+                    // (whoever shortens such a value for a message must cut on a character boundary)
+                    6 => {
+                        let n = [1usize, 15, 31, 62, 63, 64, 127, 200][d.below(8)];
+                        let wide = ["é", "✓", "𝄞"][d.below(3)];
+                        format!("{}{}{}", "L".repeat(n), wide, "tail")
+                    }
+                    7 => format!("{s}{}", "é".repeat(1 + d.below(80))),
                     0 => format!("{s}x"),
                     1 => {
                         let mut c: Vec<char> = s.chars().collect();
